@@ -12,8 +12,9 @@ MCArgsHist == {<<0, 0>>, <<0, 1>>, <<65535, 65535>>}
 MCChars    == {0, 1, 255}
 MCColPairs == {<<1, 2>>, <<200, 7>>}
 MCFillCols == {<<0, 9>>}
-MCVgaCols  == {<<7, 1>>, <<2, 15>>}
-MCVgaFill  == {<<14, 15>>}
+\* text console colours: palette boundary 15/16 and far out of range (Write replaces > 15 by the default colour)
+MCVgaCols  == {<<7, 1>>, <<2, 15>>, <<15, 0>>, <<16, 1>>, <<7, 16>>, <<17, 255>>, <<128, 14>>, <<0, 128>>, <<255, 7>>, <<14, 17>>}
+MCVgaFill  == {<<14, 15>>, <<16, 255>>}
 
 \* synthetic font: 256 glyphs of gh rows, bpr bytes per row, position-dependent bits
 Fd(gw, gh) == LET bpr == (gw + 7) \div 8 IN [i \in 1..(256 * gh * bpr) |-> (i * 73 + (i \div 7) * 19 + 41) % 256]
@@ -27,10 +28,10 @@ LBGR == <<0, 8, 8, 8, 16, 8>>
 Fb(id, cols, rows, gw, bpp, ci, offY, xw, xh) ==
   LET w == cols * gw + xw  B == (bpp + 1) \div 8 IN
   [id |-> id, cons |-> "fb", w |-> w, h |-> offY + rows * 2 + xh, pitch |-> w * B + 3, bpp |-> bpp, ci |-> ci,
-   gw |-> gw, gh |-> 2, bpr |-> (gw + 7) \div 8, offY |-> offY, clear |-> 0, fd |-> Fd(gw, 2), pal |-> Pal]
+   gw |-> gw, gh |-> 2, bpr |-> (gw + 7) \div 8, offY |-> offY, clear |-> 0, dfg |-> 7, dbg |-> 0, fd |-> Fd(gw, 2), pal |-> Pal]
 Vga(id, cols, rows) ==
   [id |-> id, cons |-> "vga", w |-> cols, h |-> rows, pitch |-> cols, bpp |-> 0, ci |-> L8,
-   gw |-> 1, gh |-> 1, bpr |-> 0, offY |-> 0, clear |-> 32, fd |-> <<>>, pal |-> <<>>]
+   gw |-> 1, gh |-> 1, bpr |-> 0, offY |-> 0, clear |-> 32, dfg |-> 7, dbg |-> 0, fd |-> <<>>, pal |-> <<>>]
 
 \* every grid 1..3 x 1..3, both fonts, depths 8 and 16, logo 0/1 (ids 1..72; the full scope takes the 36 of them in
 \* which the logo height alternates with font, depth and grid parity)
